@@ -2954,3 +2954,104 @@ def check_no_whole_array_regimes(ctx, rule: str, module_paths, floor: int = 0) -
                               'array that spans both regimes gets the formula of the wrong regime for part of its elements' % (norm(node.test)[:60], a),
                               fn.path, node.lineno, operand='whole-array-regime:' + a)
     return n
+
+
+# ---------------------------------------------------------------------------------------------------------------
+def _is_abs_call(c) -> bool:
+    return isinstance(c, ast.Call) and len(c.args) == 1 and not c.keywords and (
+        (isinstance(c.func, ast.Name) and c.func.id == 'abs')
+        or (isinstance(c.func, ast.Attribute) and c.func.attr in ('abs', 'absolute', 'fabs')))
+
+
+def signed_offset_through_abs(fn: FuncInfo):
+    """(abs call, name, line of the signed use): a local bound ONCE, to a difference `a - b` (a signed offset), is added / subtracted as
+    it is to build a value (`p + d`: the code believes its sign matters) and is ALSO a factor of a product through abs() (`t * abs(d)`: the
+    code believes it does not).  One of the two beliefs is wrong for d < 0.  Not counted: abs(d) in comparisons, in divisions (`d / abs(d)`,
+    a sign), in a product with d itself (`d * abs(d)`, a signed square), or as an argument of anything but a product."""
+    binds: Dict[str, List[ast.AST]] = {}
+    for n in walk_no_nested(fn.node):
+        tg = []
+        if isinstance(n, ast.Assign):
+            tg = [(t, n.value) for t in n.targets]
+        elif isinstance(n, (ast.AugAssign, ast.AnnAssign)):
+            tg = [(n.target, n.value)]
+        elif isinstance(n, (ast.For, ast.comprehension)):
+            tg = [(n.target, None)]
+        elif isinstance(n, ast.NamedExpr):
+            tg = [(n.target, n.value)]
+        for t, v in tg:
+            for x in ast.walk(t):
+                if isinstance(x, ast.Name) and isinstance(x.ctx, ast.Store):
+                    binds.setdefault(x.id, []).append(v if x is t else None)
+    params = {a.arg for a in fn.node.args.args + fn.node.args.kwonlyargs + fn.node.args.posonlyargs}
+    diffs = {k for k, v in binds.items() if len(v) == 1 and isinstance(v[0], ast.BinOp) and isinstance(v[0].op, ast.Sub) and k not in params}
+    if not diffs:
+        return
+    parent = {}
+    for n in walk_no_nested(fn.node):
+        for c in ast.iter_child_nodes(n):
+            parent[id(c)] = n
+    for name in sorted(diffs):
+        absuse, rawuse = [], []
+        for n in walk_no_nested(fn.node):
+            if not (isinstance(n, ast.Name) and n.id == name and isinstance(n.ctx, ast.Load)):
+                continue
+            par = parent.get(id(n))
+            if _is_abs_call(par) and par.args[0] is n:
+                gp = parent.get(id(par))
+                if isinstance(gp, ast.BinOp) and isinstance(gp.op, ast.Mult):
+                    other = gp.left if gp.right is par else gp.right
+                    if not any(isinstance(x, ast.Name) and x.id == name for x in ast.walk(other)):
+                        absuse.append(par)
+            elif isinstance(par, ast.BinOp) and isinstance(par.op, (ast.Add, ast.Sub)):
+                rawuse.append(n)
+        if not (absuse and rawuse):
+            continue
+        # the two uses must meet in one value: the product with abs() flows (through single local assignments) into the statement that
+        # adds the signed offset - unrelated quantities (an area from |d|, a position from d) are not a contradiction
+        def stmt_of(x):
+            while x is not None and not isinstance(x, ast.stmt):
+                x = parent.get(id(x))
+            return x
+        for a in absuse:
+            carriers, frontier = set(), [stmt_of(a)]
+            reach = {id(frontier[0])}
+            for _ in range(4):
+                nxt = []
+                for st in frontier:
+                    if isinstance(st, (ast.Assign, ast.AnnAssign, ast.AugAssign)):
+                        for t in (st.targets if isinstance(st, ast.Assign) else [st.target]):
+                            if isinstance(t, ast.Name):
+                                carriers.add(t.id)
+                for st2 in walk_no_nested(fn.node):
+                    if isinstance(st2, ast.stmt) and id(st2) not in reach and not isinstance(st2, (ast.If, ast.For, ast.While, ast.With, ast.Try)) \
+                            and any(isinstance(x, ast.Name) and isinstance(x.ctx, ast.Load) and x.id in carriers for x in ast.walk(st2)):
+                        reach.add(id(st2))
+                        nxt.append(st2)
+                frontier = nxt
+            for r in rawuse:
+                if id(stmt_of(r)) in reach:
+                    yield a, name, r.lineno
+                    return
+
+
+def check_signed_offsets(ctx, rule: str, module_paths, floor: int = 0) -> int:
+    ctx.rule(rule, 'a signed offset (a local bound once, to a difference `a - b`) that is added as it is to build a value is not also used '
+                   'through abs() as a factor of another component of that computation (contradictory beliefs about its sign: wrong for '
+                   'every negative offset)', floor=floor)
+    M = ctx.model
+    n = 0
+    for path in module_paths:
+        mod = M.module(path)
+        fns = [f for c in mod.classes.values() for f in list(c.methods.values()) + list(c.getters.values())] + list(mod.functions.values())
+        for fn in fns:
+            construct = fn.qualname
+            ctx.instance(rule, construct)
+            n += 1
+            hits = list(signed_offset_through_abs(fn))
+            ctx.obligation(rule, construct, not hits, {'offset': [(h[1], norm(h[0])) for h in hits]} if hits else None, nontrivial=bool(hits))
+            for node, name, ln in hits[:1]:
+                ctx.violation(rule, construct, '`%s` is a signed difference that is added as it is at line %d, but `%s` uses it as a factor without its '
+                              'sign: the result is mirrored whenever `%s` is negative' % (name, ln, norm(node), name), fn.path, node.lineno,
+                              operand='abs-offset:' + name)
+    return n
